@@ -44,7 +44,13 @@ def post(prog, r, tier, prof):
     ops = prog["ops"]
     out = []
     for op in ops:
-        if op.get("op") == "deliver" and r.random() < 0.35:
+        if op.get("op") == "deliver" and r.random() < 0.08:
+            # the folder is emptied completely right before the delivery: number 1 is re-used
+            s = r.choice(prog["sessions"])["id"]
+            out.append({"s": s, "op": "select", "mbox": op["mbox"], "examine": False})
+            out.append({"s": s, "op": "store", "uid": r.random() < 0.5, "set": {"all": True}, "how": "+", "flags": ["\\Deleted", r.choice(("\\Flagged", "\\Answered", "kw1"))], "silent": r.random() < 0.5})
+            out.append({"s": s, "op": r.choice(("expunge", "close"))})
+        elif op.get("op") == "deliver" and r.random() < 0.35:
             s = r.choice(prog["sessions"])["id"]
             out.append({"s": s, "op": "select", "mbox": op["mbox"], "examine": False})
             out.append({"s": s, "op": "store", "uid": False, "set": {"raw": "*"}, "how": "+", "flags": ["\\Deleted", "\\Flagged"], "silent": False})
